@@ -403,13 +403,23 @@ impl<'a, D: Dataset + ?Sized> ExecState<'a, D> {
         graph_matcher: &[Option<ArcTerm>],
         binding: Option<&Binding>,
     ) -> Result<Bindings<'a, D>, SparqlWrapperError<D::Error>> {
-        let new_variables = variables
+        let new_variables: Vec<_> = variables
             .iter()
             .map(|v| self.stash.copy_variable(v))
             .collect();
-        let mut bindings = self.select(inner, graph_matcher, binding)?;
-        bindings.variables = new_variables;
-        Ok(bindings)
+        let Bindings { iter, .. } = self.select(inner, graph_matcher, binding)?;
+        // the variables that are projected away must not remain visible to the outer operators
+        let kept = new_variables.clone();
+        let iter = Box::new(iter.map(move |resb| {
+            resb.map(|mut b| {
+                b.v.retain(|k, _| kept.iter().any(|v| v.as_str() == &**k));
+                b
+            })
+        }));
+        Ok(Bindings {
+            variables: new_variables,
+            iter,
+        })
     }
 
     fn slice(
